@@ -138,3 +138,31 @@ def retro_screen(draw, single_sample_plates=None, n_rows=(1, 18), obs=None, n_sa
     )
     sc["ssp"] = ssp
     return sc
+
+
+@st.composite
+def pairwise_screen(draw):
+    """Layout on which PairwisePlateGenerator returns: every sample has full combinations among its unobserved
+    experiments; single-agent rows and vehicle-only (control, control) rows are mixed in."""
+    ns = draw(st.integers(1, 3))
+    nt = draw(st.integers(2, 4))
+    val = st.one_of(st.sampled_from([0.5, 0.98, 1.0]), st.floats(min_value=0.0, max_value=1.0))
+    rows = []
+
+    def row(s, ts, p):
+        rows.append({"s": "s%d" % s, "p": p, "t": ["ctl" if t == -1 else S.treat_name(t)[0] for t in ts], "d": [0.0 if t == -1 else S.treat_name(t)[1] for t in ts], "o": draw(val)})
+
+    for s in range(ns):
+        for _ in range(draw(st.integers(1, 4))):
+            a = draw(st.integers(0, nt - 1))
+            b = (a + 1 + draw(st.integers(0, nt - 2))) % nt
+            row(s, [a, b], "u%d" % draw(st.integers(0, 2)))
+        for _ in range(draw(st.integers(0, 3))):
+            kind = draw(st.sampled_from(["single0", "single1", "vehicle", "vehicle"]))
+            t = draw(st.integers(0, nt - 1))
+            ts = [t, -1] if kind == "single0" else [-1, t] if kind == "single1" else [-1, -1]
+            row(s, ts, "u%d" % draw(st.integers(0, 2)))
+        if draw(st.booleans()):
+            row(s, [draw(st.integers(-1, nt - 1)), draw(st.integers(-1, nt - 1))], "obs")
+    observed = ["obs"] if any(r["p"] == "obs" for r in rows) else []
+    return {"arity": 2, "control": "ctl", "rows": rows, "observed": observed, "ns": ns, "nt": nt, "ssp": False}
